@@ -62,6 +62,34 @@ def gen_seq(rng, maxops, pts, long_class):
     return "tr %s %s" % (E.hx(label), " ".join(ops))
 
 
+def digest_targets(rng, per_window):
+    """transcripts whose FIRST challenge digest (as a little-endian integer) lies just below / just above a
+    multiple of r - the reduction boundaries - found by search over a counter message (python hashlib is the
+    searcher only; the expected values come from the model).  Each is followed by further challenges, so the
+    re-absorbed (reduced) scalar matters."""
+    import hashlib
+    out = []
+    proto, lab, clab = b"dg", b"m", b"c"
+    wins = []
+    for k in range(1, 9):
+        wins.append(("just above %dr" % k, k * E.R, k * E.R + (1 << 240)))
+        wins.append(("just below %dr" % k, k * E.R - (1 << 240), k * E.R))
+    found = {w[0]: 0 for w in wins}
+    ctr = rng.randrange(1 << 40)
+    tries = 0
+    while any(v < per_window for v in found.values()) and tries < 3000000:
+        tries += 1
+        ctr += 1
+        msg = ctr.to_bytes(8, "little")
+        v = int.from_bytes(hashlib.sha256(proto + lab + msg + clab).digest(), "little")
+        for name, lo, hi in wins:
+            if lo <= v < hi and v < (1 << 256) and found[name] < per_window:
+                found[name] += 1
+                out.append(("tr %s M:%s:%s C:%s C:%s S:73:%x C:%s C:" % (E.hx(proto), E.hx(lab), E.hx(msg), E.hx(clab), E.hx(b"c2"),
+                                                                         rng.randrange(E.R), E.hx(b"c3")), name))
+    return out
+
+
 def run(ctx):
     rng = ctx.rng
     # SHA-256 model validation around padding boundaries
@@ -96,6 +124,10 @@ def run(ctx):
             ops.append("S:79:%x" % rng.randrange(E.R))
         lines.append("tr 6d756c746970726f6f66 D:6d756c746970726f6f66 " + " ".join(ops) + " C:72 C:74")
         classes.append("multiproof-shape")
+        nt.append(True)
+    for l, name in digest_targets(rng, 1 if ctx.quick() else 6):
+        lines.append(l)
+        classes.append("digest " + name)
         nt.append(True)
     diff(ctx, lines, "transcript", classes, nt)
 
